@@ -152,6 +152,10 @@ impl NodeSession {
     }
 
     fn new_connection_id() -> u64 {
+        #[cfg(ractor_verif)]
+        if let Some(id) = crate::verif::take_connection_id() {
+            return id;
+        }
         let mut rng = rand::rng();
         loop {
             let connection_id = rng.random();
